@@ -19,7 +19,7 @@ def harness(units, body, pre=""):
     return '#include "harness_rt.h"\n' + inc + pre + "\nvoid harness(void) {\n" + body + "\n#ifdef WITNESS\n  WITNESS_POINT();\n#endif\n}\n"
 
 
-def stds(ctx, quick=("17", "20"), thorough=("11", "14", "17", "20", "2b")):
+def stds(ctx, quick=("17", "20"), thorough=("11", "14", "17", "20")):
     return quick if ctx.quick else thorough
 
 
